@@ -24,6 +24,7 @@ pub struct IndexCatalog {
 
 impl IndexCatalog {
     pub fn open_or_create(pager: &mut Pager) -> Result<Self> {
+        let _vo = vowner!("catalog");
         let page = match pager.index_catalog_root() {
             Some(p) => p,
             None => {
@@ -79,6 +80,7 @@ impl IndexCatalog {
     }
 
     pub fn flush(&self, pager: &mut Pager) -> Result<()> {
+        let _vo = vowner!("catalog");
         let mut buf = [0u8; PAGE_SIZE];
         encode_catalog_page(&self.entries, &mut buf)?;
         pager.write_page(self.page, &buf)?;
